@@ -2,6 +2,7 @@ package c06
 
 import (
 	"fmt"
+	"math"
 	"testing"
 
 	"github.com/paulmach/orb"
@@ -37,6 +38,17 @@ func TestEnumBounds(t *testing.T) {
 		size++
 		if !stats.Mine(idx) {
 			return
+		}
+		if idx%2 == 1 { // every other case probes at -0 instead of +0 (and has -0 edges on a)
+			nz := func(pt orb.Point) orb.Point {
+				for i := range pt {
+					if pt[i] == 0 {
+						pt[i] = math.Copysign(0, -1)
+					}
+				}
+				return pt
+			}
+			p, q, a.Min = nz(p), nz(q), nz(a.Min)
 		}
 		cs := BoundCase{A: gen.FromBound(a), B: gen.FromBound(b), C: gen.FromBound(c), P: gen.FromPt(p), Q: gen.FromPt(q)}
 		stats.Eval("TestEnumBounds", 1)
